@@ -356,14 +356,20 @@ class BaseRunner(ABC, Generic[_Request]):
         for site in list(self._sites):
             await site.stop()
 
-        if self._server:  # If setup succeeded
-            # Yield to event loop to ensure incoming requests prior to stopping the sites
-            # have all started to be handled before we proceed to close idle connections.
-            await asyncio.sleep(0)
-            self._server.pre_shutdown()
-            await self.shutdown()
-            await self._server.shutdown(self._shutdown_timeout)
-        await self._cleanup_server()
+        try:
+            if self._server:  # If setup succeeded
+                # Yield to event loop to ensure incoming requests prior to stopping the sites
+                # have all started to be handled before we proceed to close idle connections.
+                await asyncio.sleep(0)
+                self._server.pre_shutdown()
+                try:
+                    await self.shutdown()
+                finally:
+                    await self._server.shutdown(self._shutdown_timeout)
+        finally:
+            # A failing shutdown hook must not keep connections open or the
+            # cleanup steps from running.
+            await self._cleanup_server()
 
         self._server = None
         if self._handle_signals:
